@@ -126,6 +126,8 @@ type lifeMon struct {
 	// per socket: action for the next new pipe
 	next map[int]string
 	plan map[int][]string // per socket: actions for successive new pipes
+
+	idHeldChecks int // Detached callbacks in which the allocator was asked whether the id is still reserved
 }
 
 func newLifeMon(c *mon.Case) *lifeMon {
@@ -214,7 +216,19 @@ func (m *lifeMon) hook(sock int) mangos.PipeEventHook {
 			if rec.id != p.ID() {
 				c.Violate("life/id-changed", "pipe id changed from %08x to %08x", rec.id, p.ID())
 			}
-			// the id stays reserved until this callback returns
+			// the id stays reserved until this callback returns: the allocator must still hold it now
+			// (re-use needs the 31-bit counter to wrap, so only the allocator's own state can show this)
+			held := false
+			for _, x := range verifhooks.PipeIDsInUse() {
+				if x == rec.id {
+					held = true
+					break
+				}
+			}
+			if !held {
+				c.Violate("life/id-released-before-detached-returned", "pipe %08x: inside its Detached callback the id is no longer reserved by the allocator, so a new pipe could be given it while this one is still live: %v", rec.id, rec.order)
+			}
+			m.idHeldChecks++
 			if cur := m.live[rec.id]; cur == rec {
 				delete(m.live, rec.id)
 			}
@@ -364,6 +378,7 @@ func (m *lifeMon) final(wrapped bool) {
 	for s, n := range shapes {
 		c.Count("shape:"+s, n)
 	}
+	c.Count("detached_callbacks_with_id_still_reserved_checked", m.idHeldChecks)
 	if ids := verifhooks.PipeIDsInUse(); len(ids) > 0 {
 		c.Logf("ids still in use: %x", ids)
 	}
